@@ -331,12 +331,16 @@ func ParseTokenParam(buf []byte, offs int, param *PTokParam,
 					// found new space separated token after param name
 					// e.g.: foo;p1 bar => consider bar new param
 					param.state = paramFIN
-					// return separator pos (as expected)
-					if i >= offs+1 {
+					// return separator pos (as expected): the whitespace
+					// in front of the new token. If there is none
+					// (e.g. p="v"bar) return the new token start.
+					// Note: this must not depend on offs, else a
+					// resumed parse would return a different offset
+					if i > 0 && (buf[i-1] == ' ' || buf[i-1] == '\t' ||
+						buf[i-1] == '\r' || buf[i-1] == '\n') {
 						return i - 1, ErrHdrOk
-					} else {
-						return i, ErrHdrOk
 					}
+					return i, ErrHdrOk
 				}
 				// looking for '=' or sep, but found another token => error
 				param.state = paramERR
@@ -480,12 +484,16 @@ func ParseTokenParam(buf []byte, offs int, param *PTokParam,
 					// found new space separated token after param value
 					// e.g.: foo;p1=5 bar =>  consider bar new param
 					param.state = paramFIN
-					// return separator pos (as expected)
-					if i >= offs+1 {
+					// return separator pos (as expected): the whitespace
+					// in front of the new token. If there is none
+					// (e.g. p="v"bar) return the new token start.
+					// Note: this must not depend on offs, else a
+					// resumed parse would return a different offset
+					if i > 0 && (buf[i-1] == ' ' || buf[i-1] == '\t' ||
+						buf[i-1] == '\r' || buf[i-1] == '\n') {
 						return i - 1, ErrHdrOk
-					} else {
-						return i, ErrHdrOk
 					}
+					return i, ErrHdrOk
 				}
 				// looking for '=' or sep, but found another token => error
 				param.state = paramERR
